@@ -108,6 +108,29 @@ def check_spec(ctx, spec, cls=None):
             ch = changed(before, state(c))
             if ch != {('X', i)} or c.X[i] != -7.5:
                 ctx.violation('label-set', f'{kind}: obj["X", {lab!r}] = v changed cells {sorted(ch)}, expected only position {i}', dict(case, op='set'))
+    # models: the solution-record variables (status, iterations) are addressed by label like any other variable
+    probe = make(spec, cls)
+    if 'iterations' in probe.__dict__['index']:
+        for i in range(n):
+            lab = spec.labels[i][-1]
+            if lab is None:
+                continue
+            for name, v in (('iterations', 5), ('status', 'Q')):
+                c = make(spec, cls)
+                case = {'span_kind': kind, 'n': n, 'op': 'set', 'label': repr(lab), 'variable': name}
+                ctx.evaluation((kind, n, 'set', name, repr(lab)), sample=case)
+                before = state(c)
+                try:
+                    c[name, lab] = v
+                    c[name, lab:lab] = v
+                    got = c[name, lab]
+                except Exception as e:
+                    ctx.violation('label-set', f'{kind}: obj[{name!r}, {lab!r}] = {v!r} raised {type(e).__name__}: {e}', case)
+                    continue
+                ctx.count('label_writes')
+                ch = changed(before, state(c))
+                if ch != {(name, i)} or got != v:
+                    ctx.violation('label-set', f'{kind}: obj[{name!r}, {lab!r}] = {v!r} changed cells {sorted(ch)} and reads back {got!r}; expected only position {i}', case)
     # group labels (pandas partial-string indexing) address the whole group
     for lab, (a, b) in spec.group_labels.items():
         c = make(spec, cls)
